@@ -128,12 +128,25 @@ def splitDotDot (s : Bytes) : List Bytes :=
     | c :: r => go (c :: cur) acc r
   go [] [] s
 
-/-- range-arg: parts separated by "|", each  boundary [".." boundary]; optsep = blanks/tabs/LF removed first
-    (as the code does); `minmax` as boundaries; `numOK` decides a numeric boundary -/
+/-- `strings.Replace(s, "\r\n", "\n", -1)` -/
+def crlfToLf : Bytes → Bytes
+  | 13 :: 10 :: r => 10 :: crlfToLf r
+  | c :: r => c :: crlfToLf r
+  | [] => []
+
+def isOptB (c : Nat) : Bool := c = 32 || c = 9 || c = 10
+
+/-- `strings.Trim(s, " \t\n")` -/
+def trimOpt (s : Bytes) : Bytes := ((s.dropWhile isOptB).reverse.dropWhile isOptB).reverse
+
+/-- parse/arg.go `splitBoundaries`: the boundaries of a part, optsep around them removed (and only there) -/
+def boundariesOf (part : Bytes) : List Bytes := (splitDotDot (crlfToLf part)).map trimOpt
+
+/-- range-arg: parts separated by "|", each  boundary [".." boundary]; optsep (blanks, tabs, LF, CRLF) around the
+    boundaries is removed, white space inside one is not; `min` / `max` as boundaries; `numOK` decides a numeric boundary -/
 def rangeLikeOK (numOK : Bytes → Bool) (s : Bytes) : Bool :=
-  let str := s.filter (fun c => !(c = 32 || c = 9 || c = 10))
-  (splitOnByte 124 str).all fun part =>
-    match splitDotDot part with
+  (splitOnByte 124 s).all fun part =>
+    match boundariesOf part with
     | [a] => a = msg "min" || a = msg "max" || numOK a
     | [a, b] => (a = msg "min" || numOK a) && (b = msg "max" || numOK b)
     | _ => false
@@ -187,6 +200,9 @@ def argOf : Stmt → Bytes | .mk _ arg _ _ => arg
 def count (ts : List String) (t : String) : Nat :=
   if t = "NodeDataDef" then (ts.filter isDataNode).length else (ts.filter (· = t)).length
 
+/-- a node type whose keyword carries a prefix (configd:help, opd:command, …) -/
+def isPrefixedType (c : String) : Bool := ((YT.nodeNames.lookup c).getD "").toList.contains ':'
+
 /-- `checkCardinality` (verdict only: the map iteration order decides which message comes first) -/
 def cardOK (t : String) (childTypes : List String) : Bool :=
   if t = "NodeUnknown" || t = "NodeRefine" || isDeviateNode t then true
@@ -195,9 +211,12 @@ def cardOK (t : String) (childTypes : List String) : Bool :=
     let cellsOK := row.all fun (c, s, e) =>
       let n := count childTypes c
       !((s = "1" && n < 1) || (e = "1" && n > 1))
+    -- (no extension cardinality is handed to `Parse`: the statements known by name — configd:*, opd:* — may stand anywhere)
     let childrenOK := childTypes.all fun c =>
-      c = "NodeUnknown" || c = "NodeDataDef" || (row.any fun cell => cell.1 = c)
-    cellsOK && childrenOK
+      c = "NodeUnknown" || c = "NodeDataDef" || isPrefixedType c || (row.any fun cell => cell.1 = c)
+    -- a deviation needs a deviate statement, of whichever kind (the table has one optional cell per kind)
+    let deviateOK := t ≠ "NodeDeviation" || childTypes.any isDeviateNode
+    cellsOK && childrenOK && deviateOK
 
 /-! ### module / submodule section order and revision order -/
 
